@@ -12,6 +12,8 @@ and by harness/vnav.cc (which builds the real geometry through the public orange
               the region of a daughter volume equals m * (daughter boundary box) + t exactly
   array    = {"kind": "array", "name", "lo", "hi", "grid": [[x0..], [y0..], [z0..]],
               "cells": [{"name", "u", "t", "m": identity}...]}  cell (i,j,k) at index (i*ny + j)*nz + k
+              optional "oversize": true -- the daughter's box may be LARGER than the cell it fills (the array
+              truncates it, as SCALE arrays do): then the cell's planes exist at the array level only
 
 All surfaces are axis-aligned planes at even coordinates; tracks stop only at points with all-odd
 coordinates (cell centres) or on a boundary, so everything is exactly representable.  Worlds are
@@ -227,7 +229,11 @@ def check_world(w):
                 c = un["cells"][(i * ny + j) * nz + k]
                 d = us[c["u"]]
                 img = xform_box(c["m"], c["t"], [d["lo"], d["hi"]])
-                if img != [[g[0][i], g[1][j], g[2][k]], [g[0][i + 1], g[1][j + 1], g[2][k + 1]]]:
+                cellbox = [[g[0][i], g[1][j], g[2][k]], [g[0][i + 1], g[1][j + 1], g[2][k + 1]]]
+                if un.get("oversize"):
+                    if any(img[0][a] > cellbox[0][a] or img[1][a] < cellbox[1][a] for a in range(3)):
+                        raise ValueError("array cell %s is not covered by its daughter's box" % c["name"])
+                elif img != cellbox:
                     raise ValueError("array cell %s does not match its daughter's box" % c["name"])
                 if c["m"] != I3:
                     raise ValueError("array cells carry translations only")
@@ -403,6 +409,53 @@ def w_array(name, m, t):
                  + (["rotated-daughter"] if m != I3 else []))
 
 
+def w_slab_asym():
+    # the daughter's only internal face (local x = 2) is 3 away from cells whose nearest boundary, a face of
+    # the HOLE (parent level, elided from the daughter), is 1 away: a safety search that trusts the deepest
+    # level alone over-estimates here
+    d = unit("D", B(-2, 6, -2, 2, -2, 2), [mat("D.A", B(-2, 2, -2, 2, -2, 2)), mat("D.B", B(2, 6, -2, 2, -2, 2))])
+    us = [None, d]
+    h = hole("G.h", 1, us, NAMED["rzp"], (2, 0, 0))
+    hb = h["terms"][0]["box"]
+    g = B(hb[0][0] - 2, hb[1][0], hb[0][1] - 2, hb[1][1], hb[0][2], hb[1][2])
+    us[0] = unit("G", g, [h, mat("G.w", (g, [hb]))])
+    return world("slab_asym", us, ["daughter", "rotated-daughter", "coincident-daughter-faces", "parent-face-closer"])
+
+
+def w_big_room2():
+    # two 6x6x6 rooms separated by an INTERNAL face of a turned daughter: interior points with safety 3, so
+    # move_internal(position) inside the safety sphere runs through a rotated level whose local position
+    # decides the distance to that internal face
+    d = unit("D", B(-6, 6, -4, 2, -4, 2), [mat("D.P", B(-6, 0, -4, 2, -4, 2)), mat("D.Q", B(0, 6, -4, 2, -4, 2))])
+    us = [None, d]
+    h = hole("G.h", 1, us, NAMED["rzp"], (-2, 0, 0))
+    hb = h["terms"][0]["box"]
+    g = B(hb[0][0] - 2, hb[1][0], hb[0][1], hb[1][1], hb[0][2], hb[1][2])
+    us[0] = unit("G", g, [h, mat("G.w", (g, [hb]))])
+    return world("big_room2", us, ["daughter", "rotated-daughter", "coincident-daughter-faces", "safety-sphere"])
+
+
+def w_array_oversize():
+    # array cells 4x4x6 filled with units LARGER than the cell: the cell planes exist at the array level only
+    # (C's only face, x_local = -2, lies outside the cell; C2 has an internal face inside the cell)
+    c = unit("C", B(-4, 6, -2, 6, -2, 8), [mat("C.a", B(-4, -2, -2, 6, -2, 8)), mat("C.b", B(-2, 6, -2, 6, -2, 8))])
+    c2 = unit("C2", B(-2, 6, -2, 6, -2, 8), [mat("C2.lo", B(-2, 6, -2, 2, -2, 8)), mat("C2.hi", B(-2, 6, 2, 6, -2, 8))])
+    us = [None, None, c, c2]
+    grid = [[-4, 0, 4], [-4, 0, 4], [-2, 4]]
+    cells = []
+    for i in range(2):
+        for j in range(2):
+            cells.append({"name": "A.c%d%d0" % (i, j), "u": 2 if (i + j) % 2 == 0 else 3,
+                          "t": [grid[0][i], grid[1][j], -2], "m": I3})
+    us[1] = array("A", grid, cells)
+    us[1]["oversize"] = True
+    h = hole("G.h", 1, us, NAMED["id"], (0, 0, 0))
+    hb = h["terms"][0]["box"]
+    g = B(hb[0][0] - 2, hb[1][0], hb[0][1], hb[1][1], hb[0][2], hb[1][2])
+    us[0] = unit("G", g, [h, mat("G.w", (g, [hb]))])
+    return world("array_oversize", us, ["array", "daughter", "coincident-daughter-faces", "oversize-array-fill"])
+
+
 def library():
     ws = [w_single_box(), w_nested_boxes(), w_lshape(), w_ushape(), w_background(),
           w_daughter("daughter_translated", NAMED["id"], (2, -2, 0), ["translated-daughter"])]
@@ -420,7 +473,8 @@ def library():
     ws.append(w_daughter("rot_rzp_big", NAMED["rzp"], (2, 0, 0), ["rotated-daughter"]))
     ws.append(w_daughter("refl_cyc_big", NAMED["cyc"], (0, 0, 2), ["rotated-daughter"]))
     ws += [w_big_room(), w_nested3(), w_nested3b(), w_coincident(), w_array("array221", NAMED["id"], (0, 0, 0)),
-           w_array("array221_rot", NAMED["rxp"], (2, 0, 0)), w_adjacent()]
+           w_array("array221_rot", NAMED["rxp"], (2, 0, 0)), w_adjacent(),
+           w_slab_asym(), w_big_room2(), w_array_oversize()]
     return ws
 
 
@@ -612,9 +666,18 @@ def _solids(rng, name, half, taken, nmax, nonsimple=False):
         if nonsimple and i == 0:
             kind = rng.choice(("cone", "ell"))
         m = min(half)
+        # the first sphere / cylinder of a universe sits at the local origin when that is free (centred
+        # surface types sc, cxc / cyc / czc)
+        centred = (i == 0 and not nonsimple and rng.random() < 0.6)
+
+        def place(radius):
+            if centred and all(sum(o[k] ** 2 for k in range(3)) > (radius + r0 + 0.25) ** 2 for o, r0 in taken) \
+                    and all(half[k] - radius - 0.25 > 0 for k in range(3)):
+                return [0.0, 0.0, 0.0]
+            return _place(rng, half, radius, taken)
         if kind == "sphere":
             r = rng.uniform(0.5, 0.4 * m)
-            c = _place(rng, half, r, taken)
+            c = place(r)
             if c is None:
                 continue
             out.append({"name": "%s.s%d" % (name, i), "shape": "sphere", "c": c, "r": r})
@@ -623,7 +686,7 @@ def _solids(rng, name, half, taken, nmax, nonsimple=False):
             r = rng.uniform(0.4, 0.3 * m)
             hh = rng.uniform(0.4, 0.3 * m)
             br = math.sqrt(r * r + hh * hh)
-            c = _place(rng, half, br, taken)
+            c = place(br)
             if c is None:
                 continue
             out.append({"name": "%s.c%d" % (name, i), "shape": "cyl", "c": c, "r": r, "hh": hh,
